@@ -186,6 +186,8 @@ static void dot_case(int two_cols, int avx, uint64_t nrows, int fam, unsigned re
       }
       long double tr = (long double)(nrows + 4) * U53 * ar * (1 + 0x1p-40L), ti = (long double)(nrows + 4) * U53 * ai * (1 + 0x1p-40L);
       double gr = d[8 * col + k], gi = d[8 * col + 4 + k];
+      if (tr > 0) gauge_max("worst_dot_err_over_budget", (double)(fabsl(gr - sr) / tr));
+      if (ti > 0) gauge_max("worst_dot_err_over_budget", (double)(fabsl(gi - si) / ti));
       if (!(fabsl(gr - sr) <= tr) || !(fabsl(gi - si) <= ti))
         viol("oracle", "reim4_vec_mat%s_product_%s: nrows=%" PRIu64 " column %d lane %d: got (%.17g,%.17g) exact (%.17Lg,%.17Lg) budget (%.3Lg,%.3Lg)", two_cols ? "2cols" : "1col", avx ? "avx2" : "ref", nrows, col, k, gr, gi, sr, si, tr, ti);
     }
@@ -292,6 +294,8 @@ static void fftvec_case(int ly, int addmul, int variant, uint64_t m, int fam, in
     }
     tr *= (1 + 0x1p-40L);
     ti *= (1 + 0x1p-40L);
+    if (tr > 0) gauge_max("worst_pointwise_err_over_budget", (double)(fabsl(out[ire] - er) / tr));
+    if (ti > 0) gauge_max("worst_pointwise_err_over_budget", (double)(fabsl(out[iim] - ei) / ti));
     if (!(fabsl(out[ire] - er) <= tr) || !(fabsl(out[iim] - ei) <= ti)) {
       viol("oracle", "%s_fftvec_%s[%s] m=%" PRIu64 " alias=%d complex %" PRIu64 ": got (%.17g,%.17g) exact (%.17Lg,%.17Lg)", ly_name[ly], addmul ? "addmul" : "mul", vn[variant], m, alias, i, out[ire], out[iim], er, ei);
       break;
@@ -352,6 +356,7 @@ static void conv_case(uint64_t sizea, uint64_t sizeb, int fam, unsigned rep) {
             terms++;
           }
           long double tr = (long double)(terms + 4) * U53 * ar * (1 + 0x1p-40L), ti = (long double)(terms + 4) * U53 * ai * (1 + 0x1p-40L);
+          if (tr > 0) gauge_max("worst_conv_err_over_budget", (double)(fabsl(d[8 * t + (uint64_t)lane] - sr) / tr));
           if (!(fabsl(d[8 * t + (uint64_t)lane] - sr) <= tr) || !(fabsl(d[8 * t + 4 + (uint64_t)lane] - si) <= ti)) {
             viol("oracle", "reim4_convolution: sizea=%" PRIu64 " sizeb=%" PRIu64 " offset=%" PRIu64 " size=%" PRIu64 " coefficient %" PRIu64 " lane %d: got (%.17g,%.17g) want (%.17Lg,%.17Lg)", sizea, sizeb, off, sz, k, lane, d[8 * t + (uint64_t)lane], d[8 * t + 4 + (uint64_t)lane], sr, si);
             t = sz;
